@@ -199,4 +199,12 @@ def stream (t : Trk) : List (Int × Int × Int × Int) :=
   let evs := t.ev.flatMap (fun e => [(e.time, 0x90 + e.ch, e.key, e.vel), (e.time + e.dur, 0x80 + e.ch, e.key, e.vel)])
   evs.mergeSort (fun a b => decide (a.1 ≤ b.1))
 
+/-- `KeyFlag=(a,b,c,d,e,f,g)`: one value per note name in the order a b c d e f g (at most seven are read); the value of a name is
+    written to its semitone (a 9, b 11, c 0, d 2, e 4, f 5, g 7); every other entry is 0 -/
+def keyFlagOfList (vals : List Int) : List Int :=
+  let idx : List Nat := [9, 11, 0, 2, 4, 5, 7]
+  (List.range 12).map (fun i => match (idx.zip (vals.take 7)).find? (fun p => p.1 == i) with
+    | some p => p.2
+    | none => 0)
+
 end Sakura.Core
